@@ -8,6 +8,10 @@ import GridVerif.Props.C13.GenHelpers
 import GridVerif.Props.C13.Linear
 import GridVerif.Props.C13.CubeUnits
 import GridVerif.Props.C13.Fourier1
+import GridVerif.Props.C13.GenInterp
+import GridVerif.Props.C13.GenAxes
+import GridVerif.Props.C13.GenCtor
+import GridVerif.Props.C13.GenTensor
 
 #print axioms GridVerif.C13.coordinates_to_index_eq3
 #print axioms GridVerif.C13.coordinates_to_index_eq2
@@ -109,3 +113,45 @@ import GridVerif.Props.C13.Fourier1
 #print axioms GridVerif.C13.from_cube_atoms_converted
 #print axioms GridVerif.C13.from_cube_unit_flag
 #print axioms GridVerif.C13.generate_cube_writes_stored_units
+#print axioms GridVerif.C13.diag_splineCallM
+#print axioms GridVerif.C13.interpCubic_closed
+#print axioms GridVerif.C13.gen_zSpline
+#print axioms GridVerif.C13.gen_ySplines
+#print axioms GridVerif.C13.gen_xSpline
+#print axioms GridVerif.C13.gen_interpolateStep_cubic
+#print axioms GridVerif.C13.gen_interpolate_cubic_eq_model
+#print axioms GridVerif.C13.gen_interpolate_defaults
+#print axioms GridVerif.C13.interp_cubic_exact_gen
+#print axioms GridVerif.C13.bell_sum_eq_complete1
+#print axioms GridVerif.C13.bell_sum_eq_complete2
+#print axioms GridVerif.C13.bell_sum_eq_complete3
+#print axioms GridVerif.C13.bell_step
+#print axioms GridVerif.C13.interpLog_closed
+#print axioms GridVerif.C13.gen_interpolate_log_x
+#print axioms GridVerif.C13.gen_interpolate_log_y
+#print axioms GridVerif.C13.gen_interpolate_log_z
+#print axioms GridVerif.C13.gen_interpolate_log_0
+#print axioms GridVerif.C13.gen_interpolate_log_mixed
+#print axioms GridVerif.C13.gen_interpolate_log_eq_model
+#print axioms GridVerif.C13.pointsAlongAxes_closed
+#print axioms GridVerif.C13.gen_getPointsAlongAxes_eq_model
+#print axioms GridVerif.C13.gen_getPointsAlongAxes2
+#print axioms GridVerif.C13.gen_interpolate_linear_eq_model
+#print axioms GridVerif.C13.linear_reproduces_trilinear_gen
+#print axioms GridVerif.C13.coords_rows3
+#print axioms GridVerif.C13.coords_rows2
+#print axioms GridVerif.C13.gen_points3
+#print axioms GridVerif.C13.gen_points2
+#print axioms GridVerif.C13.gen_hyperRectangleInit_spec
+#print axioms GridVerif.C13.gen_uniformGridInit3
+#print axioms GridVerif.C13.gen_uniformGridInit2
+#print axioms GridVerif.C13.gen_weights_eq_model3
+#print axioms GridVerif.C13.weights_length3
+#print axioms GridVerif.C13.hyperRectangleInit_uniform3
+#print axioms GridVerif.C13.uniformGrid_closed3
+#print axioms GridVerif.C13.gen_uniformGridInit_eq_model3
+#print axioms GridVerif.C13.gen_from_molecule_defaults
+#print axioms GridVerif.C13.gen_tensor_points3
+#print axioms GridVerif.C13.gen_tensor_points2
+#print axioms GridVerif.C13.gen_tensor1DInit_eq_model
+#print axioms GridVerif.C13.gen_tensorOrigin
